@@ -733,25 +733,42 @@ def ligCtx (t : LigTable) : Ctx where
 
 /-! ### insertion (type 5) -/
 
+/-! The insertion transition works on the out-buffer throughout, so its body is written directly on the shared
+    buffer model (`RbModel.Buf`, namespace `InsS`) and run through the embedding once per transition. Its list
+    semantics is `C17_inplace_zipper` (Props/C17.lean), from the zipper specs of Lemmas/BufZipper.lean. -/
+namespace InsS
+
 /-- `for i in 0..count { output_glyph(glyphs.get(start + i)?) }`; when the `?` fires the transition
-    returns with the buffer as it is at that moment (flag `false`). -/
-def insertGlyphs' (glyphs : Nat → Option Nat) (start : Nat) : (count : Nat) → Buf → M (Buf × Bool)
+    returns with the buffer as it is at that moment (flag `false`; unreachable after `clampCount` for a
+    table whose glyph list is an array). -/
+def insertGlyphs (glyphs : Nat → Option Nat) (start : Nat) : (count : Nat) → RbModel.Buf → RbModel.M (RbModel.Buf × Bool)
   | 0, b => pure (b, true)
   | count + 1, b => do
-    let (b, ok) ← insertGlyphs' glyphs start count b
+    let (b, ok) ← insertGlyphs glyphs start count b
     if !ok then return (b, false)
     match glyphs (start + count) with
     | none => pure (b, false)
-    | some g => do let b ← outputGlyph b g; pure (b, true)
+    | some g => do let b ← b.outputGlyph g; pure (b, true)
 
 /-- the shared middle of both insertion blocks: `[copy_glyph]; output_glyph × count; [skip_glyph]`.
     `false` = a `glyphs.get(i)?` failed and the transition returns at once. -/
-def insBlock (glyphs : Nat → Option Nat) (start count : Nat) (before : Bool) (b : Buf) : M (Buf × Bool) := do
-  let b ← if b.idx < b.len && !before then copyGlyph b else pure b
-  let (b, ok) ← insertGlyphs' glyphs start count b
+def insBlock (glyphs : Nat → Option Nat) (start count : Nat) (before : Bool) (b : RbModel.Buf) :
+    RbModel.M (RbModel.Buf × Bool) := do
+  let b ← if b.idx < b.len && !before then b.copyGlyph else pure b
+  let (b, ok) ← insertGlyphs glyphs start count b
   if !ok then return (b, false)
-  let b := if b.idx < b.len && !before then skipGlyph b else b
+  let b := if b.idx < b.len && !before then b.skipGlyph else b
   return (b, true)
+
+/-- `unsafe_to_break_from_outbuffer(mark, min(idx + 1, len))`: masks are not compared by this core, only the
+    asserts and the index checks of `_set_glyph_flags` are kept. -/
+def flagsFromOut (b : RbModel.Buf) (start end_ : Nat) : RbModel.M Unit := do
+  let e := min end_ b.len
+  if b.haveOutput then
+    if start > b.outLen then throw .assert
+    if b.idx > e then throw .assert
+    if start != b.outLen && b.outArr.length < b.outLen then throw .oob
+  pure ()
 
 /-- `if count != 0 && self.glyphs.get(start + count - 1).is_none() { count = 0 }` — a glyph list that is not
     entirely inside the insertion table inserts nothing (HarfBuzz's `check_array`); `max_ops` has already
@@ -760,43 +777,58 @@ def clampCount (glyphs : Nat → Option Nat) (start count : Nat) : Nat :=
   if count != 0 && (glyphs (start + count - 1)).isNone then 0 else count
 
 /-- `if entry.extra.marked_insert_index != 0xFFFF { … }`; `false` = the transition returns. -/
-def insMarked (glyphs : Nat → Option Nat) (cs : CS) (e : Entry) (b : Buf) : M (Buf × Bool) := do
+def insMarked (glyphs : Nat → Option Nat) (mark : Nat) (e : Entry) (b : RbModel.Buf) :
+    RbModel.M (RbModel.Buf × Bool) := do
   if e.x2 != 0xFFFF then
     let count := e.flags &&& INS_MARKED_INSERT_COUNT
     let b := { b with maxOps := b.maxOps - count }
     if b.maxOps ≤ 0 then return (b, false)
     let count := clampCount glyphs e.x2 count
     let end_ := b.outLen
-    let (b, _) ← moveTo b cs.mark
+    let (b, _) ← b.moveTo mark
     let (b, ok) ← insBlock glyphs e.x2 count (bit e.flags INS_MARKED_INSERT_BEFORE) b
     if !ok then return (b, false)
-    let (b, _) ← moveTo b (end_ + count)
-    flagsFromOut b cs.mark (min (b.idx + 1) b.len)
+    let (b, _) ← b.moveTo (end_ + count)
+    flagsFromOut b mark (min (b.idx + 1) b.len)
     return (b, true)
   return (b, true)
 
+/-- the body of `if entry.extra.current_insert_index != 0xFFFF { … }` after the `max_ops` accounting -/
+def insCurrentBody (glyphs : Nat → Option Nat) (start count : Nat) (before dontAdvance : Bool) (b : RbModel.Buf) :
+    RbModel.M RbModel.Buf := do
+  let end_ := b.outLen
+  let (b, ok) ← insBlock glyphs start count before b
+  if !ok then return b
+  let (b, _) ← b.moveTo (if dontAdvance then end_ else end_ + count)
+  return b
+
 /-- `if entry.extra.current_insert_index != 0xFFFF { … }` -/
-def insCurrent (glyphs : Nat → Option Nat) (e : Entry) (b : Buf) : M Buf := do
+def insCurrent (glyphs : Nat → Option Nat) (e : Entry) (b : RbModel.Buf) : RbModel.M RbModel.Buf := do
   if e.x1 != 0xFFFF then
     let count := (e.flags &&& INS_CURRENT_INSERT_COUNT) >>> 5
     let b := { b with maxOps := b.maxOps - count }
     if b.maxOps < 0 then return b
-    let count := clampCount glyphs e.x1 count
-    let end_ := b.outLen
-    let (b, ok) ← insBlock glyphs e.x1 count (bit e.flags INS_CURRENT_INSERT_BEFORE) b
-    if !ok then return b
-    let (b, _) ← moveTo b (if bit e.flags INS_DONT_ADVANCE then end_ else end_ + count)
-    return b
-  return b
+    insCurrentBody glyphs e.x1 (clampCount glyphs e.x1 count) (bit e.flags INS_CURRENT_INSERT_BEFORE)
+      (bit e.flags INS_DONT_ADVANCE) b
+  else return b
+
+/-- src: InsertionCtx::transition (returns the new mark) -/
+def transition (glyphs : Nat → Option Nat) (mark : Nat) (e : Entry) (b : RbModel.Buf) :
+    RbModel.M (Nat × RbModel.Buf) := do
+  let markLoc := b.outLen
+  let (b, go) ← insMarked glyphs mark e b
+  if !go then return (mark, b)
+  let mark := if bit e.flags INS_SET_MARK then markLoc else mark
+  let b ← insCurrent glyphs e b
+  return (mark, b)
+
+end InsS
 
 /-- src: InsertionCtx::transition -/
-def insTransition (glyphs : Nat → Option Nat) (cs : CS) (e : Entry) (b : Buf) : M (CS × Buf) := do
-  let markLoc := b.outLen
-  let (b, go) ← insMarked glyphs cs e b
-  if !go then return (cs, b)
-  let cs := if bit e.flags INS_SET_MARK then { cs with mark := markLoc } else cs
-  let b ← insCurrent glyphs e b
-  return (cs, b)
+def insTransition (glyphs : Nat → Option Nat) (cs : CS) (e : Entry) (b : Buf) : M (CS × Buf) :=
+  match liftS (InsS.transition glyphs cs.mark e (toS b)) with
+  | .ok (mark, s) => .ok ({ cs with mark := mark }, ofS b s)
+  | .error p => .error p
 
 def insCtx (glyphs : Nat → Option Nat) : Ctx where
   inPlace := false
